@@ -114,6 +114,13 @@ func c17WaitAll(done []chan struct{}, what string, progress *int64) error {
 			if s1 && s2 && w1 == w2 && finished() == fin && prog2 == prog {
 				return vk.ViolateSig("deadlock", "%s: bookkeeping operations block each other for ever (lock cycle, no progress for %v): %s", what, time.Since(lastChange).Round(time.Second), w1)
 			}
+			// a single operation queued on a lock while every goroutine inside the code under test is blocked in the
+			// same place in two dumps: the lock's holder is gone (returned without releasing it) or will never move
+			if w1 != "" && w1 == w2 && finished() == fin && prog2 == prog {
+				if ok, where := vk.StuckForGood(time.Second); ok && finished() == fin {
+					return vk.ViolateSig("deadlock", "%s: a bookkeeping operation blocks for ever on a lock nobody will release (no progress for %v; every goroutine in the code under test is blocked: %s)", what, time.Since(lastChange).Round(time.Second), where)
+				}
+			}
 		}
 		if time.Since(start) > 10*time.Minute {
 			return fmt.Errorf("harness: operations did not finish within 10 minutes but no stable lock cycle is visible (inconclusive)")
